@@ -248,6 +248,13 @@ var zzLitTemplates = []string{
 	"return 7001 + 7002 + 7003;",
 	"return 7001 - 7002 - 7003;",
 	"t(7001 * 7002); while (false) { t(7003); } return 7003 * 7001;",
+	// right-nested constant arithmetic: a sub-expression that cannot be folded
+	// between constants that can
+	"return 7001 + ((7002 - 7003) + 7001);",
+	"return 7001 - ((7002 + 7003) - 7001);",
+	"if (7001 == (7002 - 7003) + 7001) { t(1); } return 7002 + (7001 - 7003);",
+	"t(7001 - 7002 + 7003); return (7001 - 7002) != 7003;",
+	"return 7001 + 3 * (7002 - 7003);",
 }
 
 // ZZ_C03_Literals: the same programs with integer literals that are
